@@ -39,6 +39,13 @@ Theorem C12_mapped_rule_exact_every_polynomial : forall (F : numFieldType) n (x 
 Proof. exact mapped_rule_exact_poly. Qed.
 Print Assumptions C12_mapped_rule_exact_every_polynomial.
 
+(* additivity over adjacent intervals, for every polynomial the rule integrates exactly and limits in any order *)
+Theorem C12_quad_additive_every_polynomial : forall (F : numFieldType) n (x w : 'I_n -> F) d a b c (p : {poly F}),
+  moments_exact x w d -> (size p <= d.+1)%N ->
+  Q x w a b (fun t => p.[t]) + Q x w b c (fun t => p.[t]) = Q x w a c (fun t => p.[t]).
+Proof. exact quad_additive_poly. Qed.
+Print Assumptions C12_quad_additive_every_polynomial.
+
 (* the rule depends on the integrand through its values only, and is linear over finite sums *)
 Theorem C12_quad_finite_sums : forall (F : numFieldType) n (x w : 'I_n -> F) xl xu m (c : 'I_m -> F) (f : 'I_m -> F -> F),
   Q x w xl xu (fun t => \sum_k c k * f k t) = \sum_k c k * Q x w xl xu (f k).
